@@ -95,8 +95,14 @@ def tree_identity():
         return {"head": "?", "dirty": []}
 
 
+def out_root():
+    """Where evidence/ and replays/ are written: /verif, unless VERIF_OUT names a scratch directory (used by
+    tools/try_seed.sh so that experiments on a deliberately broken tree never overwrite the committed evidence)."""
+    return os.environ.get("VERIF_OUT") or VERIF
+
+
 def write_replay(rep, name, payload):
-    d = os.path.join(VERIF, "replays")
+    d = os.path.join(out_root(), "replays")
     os.makedirs(d, exist_ok=True)
     safe = "".join(c if c.isalnum() or c in "._-" else "_" for c in name)[:120]
     path = os.path.join(d, "%s-%s.json" % (rep.pid, safe))
@@ -653,8 +659,8 @@ def finish(rep, ulist, level_if_all, coverage_extra, assumptions, checker_cmd, t
         "wall_s": round(time.time() - t_start, 2),
         "violations": len(rep.violations),
     }
-    os.makedirs(os.path.join(VERIF, "evidence"), exist_ok=True)
-    with open(os.path.join(VERIF, "evidence", rep.pid + ".json"), "w") as f:
+    os.makedirs(os.path.join(out_root(), "evidence"), exist_ok=True)
+    with open(os.path.join(out_root(), "evidence", rep.pid + ".json"), "w") as f:
         json.dump(ev, f, indent=1, default=str)
     if exit_code == 0:
         rep.say("HELD property=%s obligations=%d discharged=%d unproved=%d known-findings=%d level=%s wall=%.1fs" % (
